@@ -73,7 +73,8 @@ def split_oracle(n, k, kind):
           # every shard is a dataset of its own: indices of either sign (Python and numpy integers) address ITS examples,
           # everything outside [-len, len) is refused
           bad_index = None
-          for p_, l_ in zip(parts, lists):
+          dense = n <= 14 or (n + k) % 5 == 0        # (all (n, k) up to 14, every fifth pair beyond)
+          for p_, l_ in (zip(parts, lists) if dense else ()):
               m = len(l_)
               for i in range(-m - 2, m + 2):
                   for typ in (int, np.int64):
@@ -85,7 +86,7 @@ def split_oracle(n, k, kind):
               out.append(('shard_index', bad_index))
           # the shard taken lazily (`ds.apply(lambda d: d.shard(k, i), lazy=True)`, the usage the `apply` docstring
           # recommends): it yields the shard, and whatever it answers about its length and keys is true of the shard
-          for i in range(k):
+          for i in (range(k) if dense else ()):
               lz = ds.apply(lambda d, i=i: d.shard(k, i), lazy=True)
               got = outcome(lambda: list(lz), lambda x: x)
               if got != {'ok': lists[i]}:
